@@ -9,6 +9,7 @@ NA = {
 }
 BASE = json.load(open("/root/.vp/BASELINE.json"))["cmd"].replace("--junitxml=<file>", "").strip()
 props = [json.loads(l) for l in open("/verif/properties.jsonl")]
+READY = set(open("/verif/sa/rules/READY").read().split())
 checks, na = [], []
 for p in props:
   pid = p["id"]
@@ -16,6 +17,8 @@ for p in props:
   try:
     mod = importlib.import_module(modname)
   except ModuleNotFoundError:
+    mod = None
+  if pid not in READY:
     mod = None
   if mod is None or getattr(mod, "DISABLED", None):
     reason = NA.get(pid) or (getattr(mod, "DISABLED", None) if mod else None) or \
